@@ -18,16 +18,18 @@ def delivered : List Obs → List KP
   | .requeue ks :: r => ks ++ delivered r
   | _ :: r => delivered r
 
-/-- the key presses (not `_Flush`) taken from the input queue, in event order -/
+/-- the ordinary key presses (not `_Flush`, not CPR responses) taken from the input queue, in
+    event order -/
 def popped : List Obs → List KP
   | [] => []
-  | .pop (.key k t) :: r => .key k t :: popped r
+  | .pop kp :: r => (if kp.isFlush || kp.isCpr then [] else [kp]) ++ popped r
   | _ :: r => popped r
 
 /-- the log contains an invocation that raised -/
 def hasRaise : List Obs → Bool
   | [] => false
   | .raise _ _ _ :: _ => true
+  | .cprRaise _ _ _ :: _ => true
   | _ :: r => hasRaise r
 
 theorem delivered_append (a b : List Obs) : delivered (a ++ b) = delivered a ++ delivered b := by
@@ -38,10 +40,7 @@ theorem delivered_append (a b : List Obs) : delivered (a ++ b) = delivered a ++ 
 theorem popped_append (a b : List Obs) : popped (a ++ b) = popped a ++ popped b := by
   induction a with
   | nil => rfl
-  | cons x xs ih =>
-    cases x with
-    | pop k => cases k <;> simp [popped, ih]
-    | _ => simp [popped, ih]
+  | cons x xs ih => cases x <;> simp [popped, ih]
 
 theorem hasRaise_append (a b : List Obs) : hasRaise (a ++ b) = (hasRaise a || hasRaise b) := by
   induction a with
@@ -183,8 +182,37 @@ theorem send_conserv (I : Iface σ) (ps : PS σ) (kp : KP) :
     simpa [send, KP.isFlush] using this
 
 theorem popped_pop (kp : KP) (r : List Obs) :
-    popped (.pop kp :: r) = (if kp.isFlush then [] else [kp]) ++ popped r := by
-  cases kp <;> simp [popped, KP.isFlush]
+    popped (.pop kp :: r) = (if kp.isFlush || kp.isCpr then [] else [kp]) ++ popped r := rfl
+
+/-- `_process_cpr_response`: the key buffer and the previous key sequence are left alone; the
+    CPR key is handed to exactly one handler invocation (or to none when nothing is bound) -/
+theorem cprResponse_spec (I : Iface σ) (ps : PS σ) (kp : KP) :
+    (cprResponse I ps kp).1.buffer = ps.buffer ∧ (cprResponse I ps kp).1.prev = ps.prev ∧
+    delivered (cprResponse I ps kp).2.1 = [] ∧ popped (cprResponse I ps kp).2.1 = [] ∧
+    hasRaise (cprResponse I ps kp).2.1 = (cprResponse I ps kp).2.2 ∧
+    ((∃ h, (cprResponse I ps kp).2.1 = [.cpr h kp ps.prev]) ∨
+     (∃ h, (cprResponse I ps kp).2.1 = [.cprRaise h kp ps.prev])) := by
+  cases hm : (getMatches I ps.w [kp]).2.getLast? with
+  | none => simp [cprResponse, hm, delivered, popped, hasRaise]
+  | some b =>
+    cases ho : (I.call (getMatches I ps.w [kp]).1 ps.queue b [kp] ps.prev).2.2 <;>
+      simp [cprResponse, hm, ho, delivered, popped, hasRaise]
+
+/-- one key taken from the queue: an ordinary key or a timeout goes through the matching loop, a
+    CPR response goes to its handler directly -/
+theorem dispatchKey_conserv (I : Iface σ) (ps : PS σ) (kp : KP) :
+    delivered (dispatchKey I ps kp).2.1 ++ (dispatchKey I ps kp).1.buffer
+      = ps.buffer ++ (if kp.isFlush || kp.isCpr then [] else [kp]) ∧
+    popped (dispatchKey I ps kp).2.1 = [] ∧
+    hasRaise (dispatchKey I ps kp).2.1 = (dispatchKey I ps kp).2.2 := by
+  unfold dispatchKey
+  by_cases hc : kp.isCpr = true
+  · have := cprResponse_spec I ps kp
+    simp only [hc, if_true, Bool.or_true]
+    exact ⟨by rw [this.2.2.1, this.1]; simp, this.2.2.2.1, this.2.2.2.2.1⟩
+  · have := send_conserv I ps kp
+    simp only [hc, Bool.or_false]
+    simpa using this
 
 /-- One iteration of the `process_keys` loop.  `kp` is the key taken from the queue.
     Without a raise: delivered/dropped keys ++ new buffer = old buffer ++ [kp].
@@ -193,7 +221,7 @@ theorem popped_pop (kp : KP) (r : List Obs) :
 theorem pkStep_conserv (I : Iface σ) (ps ps' : PS σ) (obs : List Obs) (raised : Bool)
     (h : pkStep I ps = some (ps', obs, raised)) :
     ∃ kp q, getNext I ps = some (kp, q) ∧
-      popped obs = (if kp.isFlush then [] else [kp]) ∧ hasRaise obs = raised ∧
+      popped obs = (if kp.isFlush || kp.isCpr then [] else [kp]) ∧ hasRaise obs = raised ∧
       (raised = false → delivered obs ++ ps'.buffer = ps.buffer ++ popped obs) ∧
       (raised = true → (ps'.buffer = [] ∧ ps'.queue = [] ∧ ps'.prev = []) ∧
           ∃ lost, delivered obs ++ lost = ps.buffer ++ popped obs) := by
@@ -205,15 +233,15 @@ theorem pkStep_conserv (I : Iface σ) (ps ps' : PS σ) (obs : List Obs) (raised 
     | some p =>
       obtain ⟨kp, q⟩ := p
       simp only [hg] at h
-      have hs := send_conserv I { ps with queue := q } kp
+      have hs := dispatchKey_conserv I { ps with queue := q } kp
       refine ⟨kp, q, rfl, ?_⟩
       generalize (!kp.isFlush && !kp.isCpr) = plain at h
-      cases hr : (send I { ps with queue := q } kp).2.2
+      cases hr : (dispatchKey I { ps with queue := q } kp).2.2
       · simp only [hr] at h hs
         simp at h
         obtain ⟨h1, h2, h3⟩ := h
         subst h1 h2 h3
-        have hp : ∀ r, popped (Obs.pop kp :: r) = (if kp.isFlush then [] else [kp]) ++ popped r :=
+        have hp : ∀ r, popped (Obs.pop kp :: r) = (if kp.isFlush || kp.isCpr then [] else [kp]) ++ popped r :=
           popped_pop kp
         cases plain <;>
           simp [hp, popped_append, delivered_append, hasRaise_append, hs.2.1, hs.2.2, delivered,
@@ -222,19 +250,20 @@ theorem pkStep_conserv (I : Iface σ) (ps ps' : PS σ) (obs : List Obs) (raised 
         simp at h
         obtain ⟨h1, h2, h3⟩ := h
         subst h1 h2 h3
-        have hp : ∀ r, popped (Obs.pop kp :: r) = (if kp.isFlush then [] else [kp]) ++ popped r :=
+        have hp : ∀ r, popped (Obs.pop kp :: r) = (if kp.isFlush || kp.isCpr then [] else [kp]) ++ popped r :=
           popped_pop kp
         cases plain <;>
           simp [hp, popped_append, delivered_append, hasRaise_append, hs.2.1, hs.2.2, delivered,
             popped, hasRaise, resetPS] <;>
-          exact ⟨(send I { ps with queue := q } kp).1.buffer, by simpa using hs.1⟩
+          exact ⟨(dispatchKey I { ps with queue := q } kp).1.buffer, by simpa using hs.1⟩
 
 /-- **Conservation** for a whole `process_keys()` call, for any number of loop iterations,
     any key-binding object, any filters and any handlers (they may feed keys, flip conditions,
     change bindings, finish the application): the keys delivered to handlers, the dropped keys
     and the keys pushed back to the input queue as typeahead, in the order of the events,
     followed by the keys still pending in the key buffer, are exactly the keys that were pending
-    before followed by the keys taken from the input queue, in that order.
+    before followed by the ordinary keys taken from the input queue, in that order.  (CPR
+    responses do not pass through the key buffer: `cprResponse_spec`.)
     If a handler raised, the undelivered rest (`lost`) is discarded by the reset. -/
 theorem conservation (I : Iface σ) (n : Nat) (ps : PS σ) :
     hasRaise (processKeys I n ps).2.1 = (processKeys I n ps).2.2 ∧
@@ -293,9 +322,11 @@ theorem raise_resets (I : Iface σ) (n : Nat) (ps : PS σ)
         simp [hk] at h
         simpa using ih ps' h
 
-/-- an exception leaves `process_keys` only if some handler raised one -/
+/-- an exception leaves `process_keys` only if some handler raised one (for a CPR response also
+    an EditReadOnlyBuffer counts: `_process_cpr_response` calls the binding directly) -/
 theorem raise_only_from_handler (I : Iface σ) (n : Nat) (ps : PS σ)
-    (hok : ∀ w q b s p, (I.call w q b s p).2.2 ≠ .raise) :
+    (hok : ∀ w q b s p, (I.call w q b s p).2.2 ≠ .raise)
+    (hcpr : ∀ w q b k p, k.isCpr = true → (I.call w q b [k] p).2.2 = .ok) :
     (processKeys I n ps).2.2 = false := by
   have key : ∀ (ps : PS σ) b seq, (callHandler I ps b seq).2.2 = false := by
     intro ps b seq
@@ -322,6 +353,17 @@ theorem raise_only_from_handler (I : Iface σ) (n : Nat) (ps : PS σ)
       · exact absurd hc this
   have hsend : ∀ (ps : PS σ) kp, (send I ps kp).2.2 = false := by
     intro ps kp; cases kp <;> simp [send, hloop]
+  have hdisp : ∀ (ps : PS σ) kp, (dispatchKey I ps kp).2.2 = false := by
+    intro ps kp
+    unfold dispatchKey
+    by_cases hc : kp.isCpr = true
+    · simp only [hc, if_true]
+      cases hm : (getMatches I ps.w [kp]).2.getLast? with
+      | none => simp [cprResponse, hm]
+      | some b =>
+        have := hcpr (getMatches I ps.w [kp]).1 ps.queue b kp ps.prev hc
+        simp [cprResponse, hm, this]
+    · simp only [hc]; exact hsend ps kp
   induction n generalizing ps with
   | zero => rfl
   | succ n ih =>
@@ -339,7 +381,7 @@ theorem raise_only_from_handler (I : Iface σ) (n : Nat) (ps : PS σ)
         · cases hk
         · split at hk
           · cases hk
-          · simp [hsend] at hk
+          · simp [hdisp] at hk
 
 /-! ### which key is taken from the queue, and queue order -/
 
@@ -431,6 +473,16 @@ theorem runLoop_queue (n : Nat) (ps : PS σ) (f : Bool) :
       simp [taken_append, this, he', hd]
     · simpa using he'
 
+omit hd in
+theorem cprResponse_queue (ps : PS σ) (kp : KP) :
+    taken (cprResponse I ps kp).2.1 = [] ∧ (cprResponse I ps kp).1.queue = ps.queue := by
+  cases hm : (getMatches I ps.w [kp]).2.getLast? with
+  | none => simp [cprResponse, hm, taken]
+  | some b =>
+    have := hq (getMatches I ps.w [kp]).1 ps.queue b [kp] ps.prev
+    cases ho : (I.call (getMatches I ps.w [kp]).1 ps.queue b [kp] ps.prev).2.2 <;>
+      simp [cprResponse, hm, ho, taken, this]
+
 include hd in
 theorem send_queue (ps : PS σ) (kp : KP) :
     (send I ps kp).1.queue = ps.queue ∧ taken (send I ps kp).2.1 = [] := by
@@ -521,11 +573,17 @@ theorem queue_order (n : Nat) (ps : PS σ)
           | none => simp [hg] at hk
           | some p =>
             obtain ⟨kp, q⟩ := p
-            have hs := send_queue I hq hd { ps with queue := q } kp
+            have hs : (dispatchKey I { ps with queue := q } kp).1.queue = q ∧
+                taken (dispatchKey I { ps with queue := q } kp).2.1 = [] := by
+              unfold dispatchKey
+              by_cases hc : kp.isCpr = true
+              · have := cprResponse_queue I hq { ps with queue := q } kp
+                simp only [hc, if_true]; exact ⟨this.2, this.1⟩
+              · simp only [hc]; exact send_queue I hq hd { ps with queue := q } kp
             have hgn := (getNext_spec I ps kp q hg).1 (hd ps.w)
             simp only [hg] at hk
             generalize (!kp.isFlush && !kp.isCpr) = plain at hk
-            cases hsr : (send I { ps with queue := q } kp).2.2
+            cases hsr : (dispatchKey I { ps with queue := q } kp).2.2
             · simp [hsr] at hk
               obtain ⟨h1, h2⟩ := hk
               subst h1 h2
